@@ -2,6 +2,7 @@ package sim
 
 import (
 	"fmt"
+	"path/filepath"
 	"sort"
 	"strings"
 
@@ -401,6 +402,17 @@ func ResolveEntrypoints(m *ModuleSpec, eps []string) []int {
 		case e == ".":
 			for i, p := range m.Pkgs {
 				if p.Dir == "" {
+					add(i)
+				}
+			}
+		case strings.HasPrefix(e, "file="):
+			// the package that contains the file (path relative to the module root)
+			dir := filepath.ToSlash(filepath.Dir(e[len("file="):]))
+			if dir == "." {
+				dir = ""
+			}
+			for i, p := range m.Pkgs {
+				if p.Dir == dir {
 					add(i)
 				}
 			}
